@@ -252,6 +252,24 @@ def r3_ownership_predicate(ctx):
                'consulted for every non-module item and sufficient' if ok else ('the `__module__` test is only consulted under %s' % fmt_facts(others) if others else 'a positive `__module__` test does not set the verdict'), anchor=q)
 
 
+    # the last resort -- the module named by the globals the function was defined in -- is tried for EVERY item the other tests left undecided
+    # (a def whose __module__ was re-pointed by a decorator is still this module's function for the static collector)
+    fallbacks = [n for n in g.nodes if not n.dup and n.kind in ('stmt', 'test') and module_branch(n) is False and
+                 any(isinstance(x, ast.Attribute) and x.attr == '__globals__' and is_name(x.value, item) for x in ast.walk(n.ast))]
+    rep.floor('C16.R3', 'reads of the defining globals', len(fallbacks), 1)
+    for n in fallbacks:
+        extra = []
+        for fa in graph.guard_facts(dom, n):
+            if isinstance(fa.expr, ast.Call) and is_name(fa.expr.func, 'isinstance'):
+                continue
+            names = {y.id for y in ast.walk(fa.expr) if isinstance(y, ast.Name)}
+            if flag is not None and names == {flag}:
+                continue
+            extra.append(fa)
+        rep.ob('C16.R3', ctx.loc(f, n.ast), ctx.src(n.ast), not extra,
+               'consulted whenever the verdict is still undecided' if not extra else
+               'the fallback on the globals of the definition is only consulted under %s: an item of this module whose `__module__` says otherwise is judged foreign by the dynamic collector '
+               'while the static collector records it' % fmt_facts(extra), anchor=q)
     for fr_ in false_rets:
         facts = graph.guard_facts(dom, fr_)
         ok = any(fa.polarity is False and any(fa.expr is t.ast for t in tests) for fa in facts)
@@ -300,6 +318,7 @@ from ..selftest import fire, silent      # noqa: E402
 SA = 'xdoctest/static_analysis.py'
 DY = 'xdoctest/dynamic_analysis.py'
 VARIANTS = [
+    fire('globals-fallback-only-without-module-attr', 'C16.R3', ('xdoctest/dynamic_analysis.py', "        if not flag:\n            try:\n                item_modname = item.__globals__", "        if not flag and getattr(item, '__module__', None) is None:\n            try:\n                item_modname = item.__globals__")),
     fire('globals-name-compared-by-prefix', 'C16.R3', ('xdoctest/dynamic_analysis.py', "                if item_modname == target_modname:\n", "                if item_modname.startswith(target_modname):\n")),
     fire('dynamic-skips-dunder-names', 'C16.R4', (DY, "    for key, val in module.__dict__.items():\n        if isinstance(val, valid_func_types):\n", "    for key, val in module.__dict__.items():\n        if key.startswith('__'):\n            continue\n        if isinstance(val, valid_func_types):\n")),
     fire('static-skips-except-handlers', 'C16.R5', (SA, "    # -- helpers ---\n", "    def visit_Try(self, node):\n        for child in node.body + node.orelse + node.finalbody:\n            self.visit(child)\n\n    # -- helpers ---\n")),
